@@ -80,7 +80,7 @@ fn run_layout(job: &Job) {
     let ks = draw_ks(m, kmax);
     let ord = order(m, full, mc::choose(n_orders(m, full)));
     let cs = mc::choose(N_CODE_SCHEMES);
-    let rs = mc::choose(N_ROW_SCHEMES);
+    let rs = mc::choose(job.u("row_schemes"));
     let be = BACKENDS[mc::choose(nbe)];
     let rows = layout_rows(p, &cats, &ks, cs, rs, seed);
     let given: Vec<usize> = ord.iter().map(|i| cats[*i]).collect();
@@ -164,7 +164,7 @@ fn run_unseen(job: &Job) {
     let rev = m >= 2 && mc::choose(2) == 1;
     let cs = mc::choose(N_CODE_SCHEMES);
     let be = BACKENDS[mc::choose(nbe)];
-    let rows = layout_rows(p, &cats, &ks, cs, 1, seed);
+    let rows = layout_rows(p, &cats, &ks, cs, 0, seed);
     let n = rows.len();
     let i = mc::choose(m);
     let r = mc::choose(n);
@@ -239,7 +239,7 @@ fn run_nonint(job: &Job) {
     let rev = m >= 2 && mc::choose(2) == 1;
     let cs = mc::choose(N_CODE_SCHEMES);
     let be = BACKENDS[mc::choose(nbe)];
-    let mut rows = layout_rows(p, &cats, &ks, cs, 1, seed);
+    let mut rows = layout_rows(p, &cats, &ks, cs, 0, seed);
     let n = rows.len();
     let i = mc::choose(m);
     let r = mc::choose(n);
@@ -315,7 +315,7 @@ impl Harness for C18 {
         let (p_all, kmax, full) = if t { (8, 3, 4) } else { (6, 3, 3) };
         for p in 1..=p_all {
             for mask in masks_simplest_first(p) {
-                jobs.push(Job::new(format!("layout-p{}-m{:0w$b}", p, mask, w = p), json!({"kind": "layout", "p": p, "mask": mask, "kmax": kmax, "full": full, "backends": nbe, "seed": seed})));
+                jobs.push(Job::new(format!("layout-p{}-m{:0w$b}", p, mask, w = p), json!({"kind": "layout", "p": p, "mask": mask, "kmax": kmax, "full": full, "backends": nbe, "row_schemes": N_ROW_SCHEMES, "seed": seed})));
             }
         }
         // ---- first-appearance patterns
@@ -358,13 +358,13 @@ impl Harness for C18 {
                     if mask == 0 {
                         continue;
                     }
-                    jobs.push(Job::new(format!("layout6-p{}-m{:0w$b}", p, mask, w = p), json!({"kind": "layout", "p": p, "mask": mask, "kmax": 6, "full": 3, "backends": 2, "seed": seed})));
+                    jobs.push(Job::new(format!("layout6-p{}-m{:0w$b}", p, mask, w = p), json!({"kind": "layout", "p": p, "mask": mask, "kmax": 6, "full": 3, "backends": 2, "row_schemes": 2, "seed": seed})));
                 }
             }
             // wide matrices: every subset for p = 9, 10
             for p in 9..=10usize {
                 for mask in masks_simplest_first(p) {
-                    jobs.push(Job::new(format!("layout-p{}-m{:0w$b}", p, mask, w = p), json!({"kind": "layout", "p": p, "mask": mask, "kmax": 3, "full": 3, "backends": 2, "seed": seed})));
+                    jobs.push(Job::new(format!("layout-p{}-m{:0w$b}", p, mask, w = p), json!({"kind": "layout", "p": p, "mask": mask, "kmax": 3, "full": 3, "backends": 2, "row_schemes": 1, "seed": seed})));
                 }
             }
         }
@@ -399,8 +399,8 @@ impl Harness for C18 {
                 ("mapper_extension_by_seen_category", 500),
             ],
             bounds: json!({
-                "layout": format!("every p<={}, every subset of categorical columns, every category-count vector in {{1..{}}}^|S|, index list in every order for |S|<={} (else sorted, reversed, rotated, evens-then-odds, first-two-swapped), 3 code schemes x 3 row schemes (n = kmax, kmax+1, 2kmax rows), {} backends", p_all, kmax, full, nbe),
-                "layout_extensions_thorough": if t { "p<=6 with 1..6 categories per column; p=9,10 every subset with 1..3 categories (DenseMatrix f64/f32)" } else { "-" },
+                "layout": format!("every p<={}, every subset of categorical columns, every category-count vector in {{1..{}}}^|S|, index list in every order for |S|<={} (else sorted, reversed, rotated, evens-then-odds, first-two-swapped), 3 code schemes x 3 row schemes (n = kk+1, kk, 2kk rows where kk = largest category count), {} backends", p_all, kmax, full, nbe),
+                "layout_extensions_thorough": if t { "p<=6 with 1..6 categories per column (row schemes 0,1); p=9,10 every subset with 1..3 categories (row scheme 0); both on DenseMatrix f64/f32, orderings: all for |S|<=3 else the 5 structured ones" } else { "-" },
                 "first_appearance": format!("p<=3, every non-empty subset, every restricted growth string per categorical column: n<={} (1 col), n<={} (2 cols), n<={} (3 cols)", rgs_n(1), rgs_n(2), rgs_n(3)),
                 "unseen": format!("p<={}: every non-empty subset x k in {{1,2,3}}^|S| x every cell of every categorical column x 12 replacement values (unseen integer codes, codes of the neighbouring column, non-integers, negatives, >65535)", p_err),
                 "non_integer_fit": format!("p<={}: every non-empty subset x k x every cell of every categorical column x 8 fractional offsets", p_err),
